@@ -21,6 +21,15 @@ type detCase struct {
 	run  func(c *core.Ctx) string
 }
 
+var detDisturbers = []string{
+	"<header>menu</header>{{ missing.prop }}",
+	"@each(i in items)row {{ i }} {{ 10 / (2 - i) }};@end",
+	"@for(k = 0; k < 3; k++)pass {{ k }} {{ 1 / (1 - k) }}@end",
+	"fine {{ items }} @each(i in items){{ i }}@end",
+	"@if(true)in if @each(i in items)x{{ i.nofn() }}@end@end",
+	"{{ {b: 1, a: 2, c: nope} }}",
+}
+
 var detKeys = []string{"id", "ID", "title", "Title", "a", "b", "c", "zeta", "alpha", "Beta", "k1", "k2", "k10", "é", "_x", "name", "Name", "x"}
 
 func manyKeyObject(r *rand.Rand, n int, depth int) map[string]any {
@@ -83,6 +92,30 @@ func genDetCase(c *core.Ctx, i int) detCase {
 		src := "line1\n{{ {" + strings.Join(pairs, ",\n ") + "} }}"
 		return detCase{map[string]any{"source": src}, func(c *core.Ctx) string { return observe(textwire.EvaluateString(src, nil)) }}
 	case 3: // component arguments with several failing entries; many-key arguments
+		if r.Intn(3) == 0 {
+			// every value evaluates, but several arguments cannot be bound (type of a visible name, reserved name)
+			cand := []string{"title: 404", "count: \"many\"", "width: 2.5", "loop: 1", "flag: \"yes\"", "zz: [1]"}
+			r.Shuffle(len(cand), func(a, b int) { cand[a], cand[b] = cand[b], cand[a] })
+			n := 2 + r.Intn(4)
+			files := map[string]string{
+				"components/c.tw": "<{{ title }}>",
+				"page.tw":         "p\n@component(\"~c\", {" + strings.Join(cand[:n], ", ") + "})\n",
+			}
+			dc := treeDetCase(files, "page")
+			inner := dc.run
+			dc.run = func(c *core.Ctx) string {
+				tpl, err := loadTree(c, "c14tree", files, ".tw")
+				if err != nil || tpl == nil {
+					return inner(c)
+				}
+				out, fe := tpl.String("page", map[string]any{"title": "t", "count": 3, "width": "w", "flag": true, "zz": "s"})
+				if fe != nil {
+					return fmt.Sprintf("ERR:%s|line=%d|path=%s", fe.Message(), fe.Line(), fe.Filepath())
+				}
+				return "OUT:" + out
+			}
+			return dc
+		}
 		fails := []string{"nope1", "1 / 0", "\"x\" + 1", "nope2.y"}
 		r.Shuffle(len(fails), func(a, b int) { fails[a], fails[b] = fails[b], fails[a] })
 		n := 2 + r.Intn(3)
@@ -134,7 +167,13 @@ func genDetCase(c *core.Ctx, i int) detCase {
 		return treeDetCase(files, "page")
 	case 6: // 2..4 faulty files at once (syntax errors and link errors)
 		files := map[string]string{"layouts/l.tw": "<@reserve(\"ok\")>", "components/c.tw": "<c>", "good.tw": "fine"}
-		kinds := []string{"{{ # }}", "@if(true)x", "@use(\"~ghost\")x", "@component(\"~ghost\")", "@use(\"~l\")@insert(\"nowhere\", 1)", "@component(\"~c\")@slot(\"u\")x@end@end", "{{ 1 + }}"}
+		kinds := []string{"{{ # }}", "@if(true)x", "@use(\"~ghost\")x", "@component(\"~ghost\")", "@use(\"~l\")@insert(\"nowhere\", 1)", "@component(\"~c\")@slot(\"u\")x@end@end", "{{ 1 + }}",
+			"@component(\"~c\", [{title: \"A\", count: 1, zeta: 2, Alpha: 3}])", "@component(\"~c\", dark ? theme : {bg: \"#fff\", fg: \"#000\", b: 1, a: 2})", "@component(\"~c\", {a: 1, b: 2, c: 3}.a)"}
+		if r.Intn(3) == 0 {
+			// a single faulty file whose message could embed map-ordered text
+			src := kinds[7+r.Intn(3)]
+			return detCase{map[string]any{"source": src}, func(c *core.Ctx) string { return observe(textwire.EvaluateString(src, nil)) }}
+		}
 		pages := []string{"zz.tw", "aa.tw", "Mm.tw", "sub/bb.tw", "sub/aa.tw"}
 		r.Shuffle(len(pages), func(a, b int) { pages[a], pages[b] = pages[b], pages[a] })
 		linkOnly := r.Intn(2) == 0
@@ -207,6 +246,12 @@ func init() {
 				}
 				var first string
 				for rep := 0; rep < r1; rep++ {
+					// between repetitions other renders happen in the process: some fail after having produced
+					// output, some succeed; they must leave no trace in the observation of this case
+					if rep > 0 {
+						d := detDisturbers[(caseNo+rep)%len(detDisturbers)]
+						c.Guard(func() { textwire.EvaluateString(d, map[string]any{"items": []int{1, 2, 3}, "zero": 0}) })
+					}
 					var obs string
 					c.Eval(1)
 					if c.Guard(func() { obs = dc.run(c) }) {
